@@ -84,6 +84,6 @@ META = {
     'level': 'proof', 'bounded_apart': True,
     'trusted_base': ['CBMC 6.11 (dfcc contract instrumentation, SAT back end)', 'fls_u64: bsr inline asm replaced by an assumed instruction contract',
                      'sequential meaning of uatomic/cmm primitives (atomics_seq.h)', 'pthread mutex stubs'],
-    'assumptions': ['quiescent resize: no other thread moves resize_target / in_progress_destroy during the call (concurrent re-targeting is outside the contracts)',
+    'assumptions': ['quiescent resize in C09.O2.resize_terminates and C09.O3: no other thread moves resize_target / in_progress_destroy during the call; a target that moves once during a pass is C09.O2.resize_retarget, further interleavings of re-targeting are not decided',
                     'partition worker threads and the work-queue thread are not modelled as threads'],
 }
